@@ -878,7 +878,11 @@ def identify(ctx, x, constants=[], tol=None, maxcoeff=1000, full=False,
                 s = pslqstring(r, constants)
             # Quadratic algebraic numbers
             else:
-                q = ctx.pslq([ctx.one, t, t**2], tol, M)
+                try:
+                    q = ctx.pslq([ctx.one, t, t**2], tol, M)
+                except ValueError:
+                    # (t**2 lies below the resolution of pslq)
+                    q = None
                 if q is not None and len(q) == 3 and q[2]:
                     aa, bb, cc = q
                     if max(abs(aa),abs(bb),abs(cc)) <= M:
